@@ -46,7 +46,7 @@ def run(ctx):
     ctx.bound("(i) conformity", "two triangles sharing an edge, all 18 consistently oriented local numberings, symbolic vertex coordinates and edge parameter; P1, RWG, SNC")
     ctx.bound("(ii) partition of unity", "closed meshes T4 (tetrahedron) and T6 (octahedron); symbolic local point in every (barycentric) element")
     ctx.bound("(iii)(iv) DOF maps", "meshes T4 T5 T6 (T7 T9 thorough): every support mask x 4 flag combinations as symbolic booleans (all constructor paths)")
-    ctx.out("BC / RBC conformity on the barycentric grid (their coefficient tables are exercised by C10's pointwise checks of the RWG barycentric maps and C13's mass matrices)")
+    ctx.out("BC / RBC on segments or open meshes (whole closed meshes are in: part i, coefficient-table condition)")
     ctx.out("non-manifold edges (more than two neighbours) and inconsistently oriented neighbours")
     ctx.assume("(i): integration elements satisfy ie^2 = |J0 x J1|^2 and n = (J0 x J1)/ie (the defining lemmas of the sqrt atom the real geometry code creates; decided in C11)")
 
@@ -155,6 +155,33 @@ def run(ctx):
                     if nconf == 0 and kind == "RWG":
                         ctx.twin("twin/rwg-normal-component-jumps", eq_formula(inner[0] * NN[1], -(inner[1] * NN[0])), hy + [term(inner[0]) != 0], abs_cons="cone")
                 nconf += 1
+    # BC / RBC on closed meshes: every Buffa-Christiansen function is sum_k T[k, j] * (local RWG/SNC function k of the
+    # barycentric grid); by the lemma above it is conforming iff the effective multipliers T[k, j] * m_k of the two local
+    # functions of every barycentric edge are opposite
+    for mesh in (("T4", "T6") if thorough else ("T4",)):
+        v, e, d = W.mesh(mesh)
+        g = b.Grid(np.asarray(v, dtype=float), np.asarray(e))
+        bg = g.barycentric_refinement
+        for kind in ("BC", "RBC"):
+            ABS.reset()
+            sp = b.function_space(g, kind, 0)
+            T = sp.dof_transformation
+            T = T.toarray() if hasattr(T, "toarray") else np.asarray(T)
+            l2g, mult = np.asarray(sp.local2global), np.asarray(sp.local_multipliers)
+            supp = set(int(x) for x in sp.support_elements)
+            for j in range(T.shape[1]):
+                cl = []
+                live = False
+                for ed in range(bg.number_of_edges):
+                    ne = [int(x) for x in bg.edge_neighbors[ed]]
+                    if len(ne) != 2 or not (ne[0] in supp and ne[1] in supp):
+                        continue
+                    loc = [[int(x) for x in bg.element_edges[:, el]].index(ed) for el in ne]
+                    c = [SR.lift(T[int(l2g[el, i]), j]) * SR.lift(mult[el, i]) for el, i in zip(ne, loc)]
+                    live = live or not (c[0].is_const() and c[0].c == 0)
+                    cl.append(term(c[0] + c[1]) == 0)
+                ctx.prove("i/%s/%s/function%d" % (kind, mesh, j), z3.And(*(cl + [z3.BoolVal(live)])), [], family="bc_conformity", params={"mesh": mesh, "kind": kind}, abs_cons="cone", group="i-" + kind)
+        ctx.concrete("bc_conformity/%s" % mesh, "bc_conformity", {"mesh": mesh})
     fa, na, ta = [[z3.Real("%s%d" % (nm_, d_)) for d_ in range(3)] for nm_ in ("lf", "ln", "lt")]
     ctx.prove("i/lemma/triple-product", dot(cross(na, fa), ta) == dot(fa, cross(ta, na)), [], family="conformity", params={"lemma": "(n x f).t = f.(t x n)"}, abs_cons=False, group="i-lemma-SNC")
     ctx.concrete("conformity", "conformity", {})
@@ -413,6 +440,30 @@ def concrete(family, params):
                 if gap > worst:
                     worst, det = gap, kind
         return {"gap": worst if worst > 1e-10 else 0.0, "jump": worst, "key": "conformity/%s" % (det if worst > 1e-10 else "")}
+    if family == "bc_conformity":
+        v, e, d = W.mesh(params["mesh"])
+        g = b.Grid(np.asarray(v, dtype=float) * np.array([[1.0], [1.2], [0.8]]), np.asarray(e))
+        bg = g.barycentric_refinement
+        worst, det = 0.0, ""
+        for kind in ("BC", "RBC"):
+            sp = b.function_space(g, kind, 0)
+            gf = b.GridFunction(sp, coefficients=rng.rand(sp.global_dof_count))
+            for ed in range(bg.number_of_edges):
+                ne = [int(x) for x in bg.edge_neighbors[ed]]
+                if len(ne) != 2:
+                    continue
+                A, Bv = [int(x) for x in bg.edges[:, ed]]
+                vals = []
+                for el in ne:
+                    la, lb = list(bg.elements[:, el]).index(A), list(bg.elements[:, el]).index(Bv)
+                    p = 0.3 * np.array(REF[la], dtype=float) + 0.7 * np.array(REF[lb], dtype=float)
+                    f = gf.evaluate(el, p.reshape(2, 1))[:, 0]
+                    t = bg.vertices[:, Bv] - bg.vertices[:, A]
+                    vals.append(f.dot(np.cross(t, bg.normals[el])) if kind == "BC" else f.dot(t))
+                gap = abs(vals[0] - vals[1])
+                if gap > worst:
+                    worst, det = gap, kind
+        return {"gap": worst if worst > 1e-10 else 0.0, "jump": worst, "key": "bc_conformity/%s" % (det if worst > 1e-10 else "")}
     if family == "partition_of_unity" or family == "dual_nodal":
         v, e, d = W.mesh(params["mesh"])
         g = b.Grid(np.asarray(v, dtype=float), np.asarray(e))
